@@ -37,4 +37,12 @@ theorem findBit_spec (v r : BitVec 64) (h1 : 1#64 ≤ r) (h2 : r ≤ popCount v)
   simp only [popCount, findBit, searchStep, sums, M0, M1, M2, M3, M4, M5] at *
   bv_decide (config := { timeout := 900 })
 
+/-- the rotation of `ShuffledStealers::new` (up to 63 workers): the first candidate becomes the LSB and the rotated
+set stays within the `n` low bits -/
+theorem rotate_spec (c pos n : BitVec 64) (hn : n ≤ 63#64) (hpos : pos < n) (hc : c >>> n = 0#64)
+    (hbit : (c >>> pos) &&& 1#64 = 1#64) :
+    (rotate c pos n) &&& 1#64 = 1#64 ∧ (rotate c pos n) >>> n = 0#64 := by
+  simp only [rotate] at *
+  bv_decide (config := { timeout := 900 })
+
 end NexoVerif.Steal
